@@ -236,11 +236,11 @@ def task_entry(*args, **kwds):
         _time.sleep(sim.delays[cd])
     fault = None
     for f in sim.faults:
-        if f["kind"] == "task_raise" and f.get("cov") == cd and not f.get("fired"):
+        if f["kind"] == "task_raise" and f.get("cov") in (cd, "*") and not f.get("fired"):
             fault = f
             break
     if fault is not None and fault.get("when", "before") == "before":
-        fault["fired"] = True
+        fault["fired"] = not fault.get("sticky", False)      # a sticky fault hits every task
         sim.fired("task_raise")
         raise EXC_TYPES[fault["exc"]](fault.get("msg", "injected task fault"))
     res = orig(*args, **kwds)
